@@ -9,6 +9,7 @@ mod r1cs;
 mod replay;
 mod oracle;
 mod scen_c03;
+mod scen_c07;
 mod scen_c10;
 mod scen_c15;
 mod scen_r1cs;
@@ -147,6 +148,24 @@ fn tasks_for(prop: &str, tier: &str, seed: u64) -> Vec<Task> {
             }
             out
         }
+        "C07" => {
+            let mut out = vec![];
+            for (k, case) in scen_c07::c07_cases(thorough).into_iter().enumerate() {
+                let cs: Vec<&str> = if thorough { curves.clone() } else { vec![["secq256k1", "zorro", "curve25519"][k % 3]] };
+                for c in cs {
+                    let (case, c) = (case.clone(), c.to_string());
+                    out.push(Task {
+                        name: format!("C07:{}:{}", case.name, c),
+                        replay: serde_json::json!({"kind": "c07", "case": case, "seed": seed}),
+                        run: Box::new(move || {
+                            use scen_c07::job_c07 as f;
+                            on_curve!(c.as_str(), f, &case, seed, &c)
+                        }),
+                    });
+                }
+            }
+            out
+        }
         "C10" => {
             let mut out = vec![];
             for (k, case) in scen_c10::c10_cases(thorough).into_iter().enumerate() {
@@ -278,7 +297,7 @@ fn main() {
                     println!("REPLAY {}", if any_wrong { "REPRODUCED" } else { "NOT-REPRODUCED" });
                     std::process::exit(if any_wrong { 1 } else { 0 });
                 }
-                Some(kind @ ("c10" | "c13" | "c15")) => {
+                Some(kind @ ("c10" | "c13" | "c15" | "c07")) => {
                     let seed = rp["seed"].as_u64().unwrap_or(0);
                     let mut any_wrong = false;
                     for (k, m) in [(0u64, model.clone()), (1, HashMap::new()), (2, HashMap::new())] {
@@ -288,6 +307,10 @@ fn main() {
                                 replay::c10_native::<Secq>(&case, seed + k, m)
                             }
                             "c13" => replay::c13_native::<Secq>(rp["variant"].as_str().unwrap(), seed + k, m),
+                            "c07" => {
+                                let case: scen_c07::BatchCase = serde_json::from_value(rp["case"].clone()).unwrap();
+                                replay::c07_native::<Secq>(&case, seed + k, m)
+                            }
                             _ => replay::c15_native::<ark_secq256k1::Fr>(rp["batch"].as_u64().unwrap(), rp["ntrees"].as_u64().unwrap() as usize, seed, m),
                         });
                         match checks {
